@@ -170,12 +170,27 @@ R.update({
     "C16-seed7": ("C16", "C16 quick (confine_quick through the real apply_stub_using_libcst glue)", "after strengthening", "the harness used to call the libcst codemod itself; it now runs MonkeyType's own apply function (libcst untraced) incl. a stub that adds no import"),
 })
 
+# round 6 (third session): eight properties, 24 delivered, 13 repeats of earlier changes (all caught or, for the getrandbits one, answered exit 2), 11 kept
+R.update({
+    "C01-seed11": ("C01", "C01 quick (c01_realrun: gen_raising)", "at once", "yield types folded into the trace only when the generator finishes by returning"),
+    "C02-seed12": ("C02", "C02 quick (sessions)", "after strengthening", "module-level code->function memo shared by all tracers, negative answers included: needs TWO tracing sessions in one process; harness added"),
+    "C03-seed9": ("C03", "C03 quick (context)", "at once", "tracing context left by a BaseException-only path"),
+    "C03-seed10": ("C03", "C03 quick (hookfree: Journal.__eq__ at a nested-container position)", "at once", "`obj in enclosing_containers` runs __eq__ of the program's objects"),
+    "C03-seed11": ("C03", "C03 quick (rng: no sample rate, yet random.randrange is called)", "after strengthening", "first flagged for the wrong reason (an attribute comparison in the context harness, since relaxed); the rng harness watches the process-wide generator"),
+    "C09-seed12": ("C09", "C09 quick (atomic: a retried batch commits part of it)", "at once", ""),
+    "C12-seed10": ("C12", "C12 quick (sigrender_quick: '*' twice)", "at once", ""),
+    "C14-seed10": ("C14", "C14 quick (runs)", "after strengthening", "a cached import map mutated for a default-None parameter: the stub of the same rows gains `from typing import Optional` after ANOTHER generation in the process; harness added"),
+    "C14-seed11": ("C14", "C14 quick (order3u); also C07 quick (types_mix9)", "after strengthening", "same change as C07-seed3, delivered for C14: neither tier of C14 had three rows giving an empty container, a non-empty one of the same kind and a member containing a union; slim harness added (default rewriter, rows in every order)"),
+    "C17-seed10": ("C17", "C17 quick (deffilter_quick: allow-listed name below a directory without __init__.py)", "at once", ""),
+    "C18-seed12": ("C18", "C18 quick (sampling_quick: residue in tracer.unsampled)", "at once", ""),
+})
+
 
 def main():
     lines = ["# Seeded changes and which checks catch them", "",
              "Each directory holds patch.diff (applies to /repo's HEAD with `git -C /repo apply`), demo.py (exit 0 / PASS on the unchanged tree, exit 1 / FAIL with the patch) and meta.json.",
              "All were produced by sub-agents that saw only the property text and a scratch worktree; each was confirmed (tests pass with the patch, demo fails with it and passes without) "
-             "by tools/try_seed.sh before the check was run against it. Five rounds over three sessions. "
+             "by tools/try_seed.sh before the check was run against it. Six rounds over three sessions. "
              "'when' says whether the quick check as it stood when the change was first tried caught it. After the strengthenings every change is caught by the "
              "quick tier of its property, except four that are answered exit 2 (inconclusive) by design (C09-seed5, C09-seed11, C18-seed7, C18-seed10).", "",
              "| seed | property | caught by | when | note |", "|---|---|---|---|---|"]
